@@ -60,6 +60,8 @@ def oracle(program, blocksize=8192):
     """Returns (run, failures) where failures = [(sig, clause, msg)]."""
     shim.install('UTC')
     failures = []
+    # a moving clock in half of the cases (views are compared, not bytes): whatever the library stamps twice must still agree
+    shim.set_tick(len(program['ops']) % 2 == 1)
     run = Run(program)
     run.run_all()
     for pr in run.problems:
